@@ -7,6 +7,12 @@
 //! `ORDER BY`, window function without `FILTER`, `IN ()`, …): the parent's `f_up` is invoked
 //! although the contract says it is bypassed. A case carries this signature iff the reference
 //! interpreter gives a different outcome with and without that behaviour modelled.
+//!
+//! `subquery-jump-absorbed`: in the `*_with_subqueries` traversals a Jump that leaves a subquery
+//! is returned into the `Expr::apply` / `Expr::transform_down` walk over the expression holding
+//! the subquery. That walk consumes it (so the plan node's `f_up` runs although the subquery was
+//! its last child) and skips the operands of that expression — a subquery nested in the operand
+//! of `x IN (subquery)` is then never visited.
 use crate::c42a;
 use crate::c42b;
 use crate::c42ref::*;
@@ -30,9 +36,11 @@ pub fn is_open(property: &str, sig: &str) -> bool {
 
 pub const TRAILING: &str = "trailing-empty-container";
 
-fn differs<F: Family>(spec: &RNode, api: Api, dec: &[Dec]) -> bool {
-    let a = reference_mode::<F>(spec, api, dec, false);
-    let b = reference_mode::<F>(spec, api, dec, true);
+pub const ABSORB: &str = "subquery-jump-absorbed";
+
+fn differs<F: Family>(spec: &RNode, api: Api, dec: &[Dec], dev: u8) -> bool {
+    let a = reference_mode::<F>(spec, api, dec, 0);
+    let b = reference_mode::<F>(spec, api, dec, dev);
     a.rec != b.rec || a.transformed != b.transformed || a.tree != b.tree || a.calls.len() != b.calls.len() || a.calls.iter().zip(b.calls.iter()).any(|(x, y)| x.phase != y.phase || x.seen != y.seen)
 }
 
@@ -41,15 +49,29 @@ pub fn signature_a(case: &c42a::Case) -> Option<String> {
         return None;
     }
     let spec = c42a::spec_for(case.flavor, &case.tree);
-    if differs::<c42a::H>(&spec, case.api, &case.dec) { Some(TRAILING.into()) } else { None }
+    // The traversal order of a hash-map node differs per map instance, so for trees with such a
+    // node (2+ entries) the exact test below cannot be evaluated ahead of the run: be conservative
+    // there (some node with a trailing-empty layout and some Jump decision in a relevant phase).
+    let mut multi_map = false;
+    let mut trailing = false;
+    spec.for_each(&mut |n, _| {
+        multi_map |= n.kind == "M" && n.kids.len() >= 2;
+        trailing |= !n.kids.is_empty() && <c42a::H as Family>::trailing_empty(n.kind, n.kids.len());
+    });
+    if multi_map {
+        let jump = case.dec.iter().any(|d| if case.api.one_level() { d.down.rec == Rec::J } else { d.up.rec == Rec::J });
+        let phase = case.api.has_up() || case.api.one_level();
+        return if trailing && jump && phase { Some(TRAILING.into()) } else { None };
+    }
+    if differs::<c42a::H>(&spec, case.api, &case.dec, DEV_TRAILING) { Some(TRAILING.into()) } else { None }
 }
 
 pub fn signature_b(case: &c42b::Case) -> Option<String> {
     let spec = c42b::spec_for(case.family, &case.tree);
     let api = c42b::effective_api(case.family, case.api);
-    let d = match case.family {
-        c42b::Fam::Expr => differs::<c42b::E>(&spec, api, &case.dec),
-        _ => false,
-    };
-    if d { Some(TRAILING.into()) } else { None }
+    match case.family {
+        c42b::Fam::Expr if differs::<c42b::E>(&spec, api, &case.dec, DEV_TRAILING) => Some(TRAILING.into()),
+        c42b::Fam::LogicalSubq if differs::<c42b::LW>(&spec, api, &case.dec, DEV_ABSORB) => Some(ABSORB.into()),
+        _ => None,
+    }
 }
